@@ -61,7 +61,11 @@ def _regex_constants(ctx):
         if isinstance(n, ast.Assign) and len(n.targets) == 1 and isinstance(n.targets[0], ast.Name):
             v = n.value
             if isinstance(v, ast.Call) and path_of(v.func) == 're.compile':
-                if not v.args or not A.is_str(v.args[0]):
+                try:
+                    pat_ = A.ev(v.args[0], env) if v.args else None      # a literal, or built from earlier module-level constants
+                except A.NotClosed:
+                    pat_ = None
+                if not isinstance(pat_, str):
                     raise AnalysisError('validation.%s: pattern is not a literal' % n.targets[0].id)
                 flags = 0
                 if len(v.args) > 1:
@@ -69,7 +73,7 @@ def _regex_constants(ctx):
                         flags = A.ev(v.args[1], env)
                     except A.NotClosed as e:
                         raise AnalysisError('validation.%s: flags not closed: %s' % (n.targets[0].id, e))
-                out[n.targets[0].id] = (v.args[0].value, int(flags), n)
+                out[n.targets[0].id] = (pat_, int(flags), n)
             else:
                 try:
                     env[n.targets[0].id] = A.ev(v, env)
@@ -454,7 +458,11 @@ def _int_arg_proved_digits(fn, g, call):
                 K = None
                 if isinstance(par, ast.If) and isinstance(par.test, ast.Compare) and isinstance(par.test.ops[0], ast.Eq) and n in par.body:
                     sides = [par.test.left, par.test.comparators[0]]
-                    if any(norm(x) == 'len(%s)' % v for x in sides):
+                    # (the length may be held in a local bound to len(v) - necessarily before this, the only, rewrite of v)
+                    len_names = {st_.targets[0].id for st_ in ast.walk(fn) if isinstance(st_, ast.Assign) and len(st_.targets) == 1
+                                 and isinstance(st_.targets[0], ast.Name) and norm(st_.value) == 'len(%s)' % v
+                                 and st_.lineno < n.lineno}
+                    if any(norm(x) == 'len(%s)' % v or (isinstance(x, ast.Name) and x.id in len_names) for x in sides):
                         K = next((A.const(x) for x in sides if isinstance(x, ast.Constant)), None)
                 if d is not None and K is not None:
                     lens = [L + d if L == K else L for L in lens]
@@ -634,6 +642,9 @@ def _date_rule(ctx):
     def rejected_with_time(m, time_ok):
         env0 = dict(MODC)
         env0.update({'year': 2001, 'month': m, 'day': 1, 'val': '200101012500', 'len(val)': 12})
+        for st_ in ast.walk(fn0):
+            if isinstance(st_, ast.Assign) and len(st_.targets) == 1 and isinstance(st_.targets[0], ast.Name) and norm(st_.value) == 'len(val)':
+                env0[st_.targets[0].id] = 12       # a local holding the length of the 12-character value
         f2 = dict(funcs)
         f2['is_valid_time'] = lambda *a_: time_ok
         try:
@@ -827,7 +838,8 @@ def r5_dispatch(ctx):
     trys = [s for s in fn.body if isinstance(s, ast.Try)]
     if len(trys) != 1:
         raise AnalysisError('IsValidDataType: try block not found')
-    arms = list(A.branch_chain(trys[0].body, lambda e: norm(e) in ('data_type', 'data_type[0]')))
+    # (the chain may sit under a guard on the kind of data_type: every statement list of the try body is searched)
+    arms = list(A.branch_chain_all(ast.Module(body=trys[0].body, type_ignores=[]), lambda e: norm(e) in ('data_type', 'data_type[0]')))
     if not arms:
         raise AnalysisError('IsValidDataType: dispatch on data_type not found')
     from ..absint import explore as _ex
